@@ -66,14 +66,21 @@ func doCall(fn string, args [][]byte) (out outcome, mutated bool) {
 		a[i] = make([]byte, len(args[i]))
 		copy(a[i], args[i])
 	}
+	out = invoke(fn, a)
+	for i := range args {
+		if !bytes.Equal(a[i], args[i]) {
+			mutated = true
+		}
+	}
+	return
+}
+
+// invoke calls one dhash function on exactly the slices given (callers that want to
+// share or reuse buffers pass them here) and maps the result.
+func invoke(fn string, a [][]byte) (out outcome) {
 	defer func() {
 		if p := recover(); p != nil {
 			out = outcome{Kind: "panic", Msg: fmt.Sprint(p)}
-		}
-		for i := range args {
-			if !bytes.Equal(a[i], args[i]) {
-				mutated = true
-			}
 		}
 	}()
 	ret := func(b []byte, err error) outcome {
@@ -163,8 +170,9 @@ func unhexes(s []string) [][]byte {
 // the run
 
 type run struct {
-	c      *vlib.Ctx
-	failed map[string]int
+	c        *vlib.Ctx
+	failed   map[string]int
+	histSeen map[string]bool
 }
 
 // call = run the implementation, apply the call-level oracles, emit the Coq case.
@@ -334,7 +342,7 @@ func main() {
 	defer c.Finish()
 	c.Family("call", caseHeader, "fun c => andb pk_selftest (call_case_ok c)", c.Pick(400, 500))
 	c.Family("find", caseHeader, "fun c => andb pk_selftest (find_case_ok c)", c.Pick(60, 80))
-	r := &run{c: c, failed: map[string]int{}}
+	r := &run{c: c, failed: map[string]int{}, histSeen: map[string]bool{}}
 
 	if c.Replay != "" {
 		r.replay()
@@ -345,6 +353,7 @@ func main() {
 	c.Res.Exhaustive = false
 
 	r.encryptCases()
+	r.historyCases()
 	r.concurrentCases()
 	r.tamperCases()
 	r.valueKeyCases()
@@ -1088,6 +1097,25 @@ func (r *run) replay() {
 		panic(err)
 	}
 	switch probe.Kind {
+	case "history":
+		var h chistory
+		if err := r.c.LoadReplay(&h); err != nil {
+			panic(err)
+		}
+		clean := cleanTable{}
+		for _, c := range h.Calls {
+			clean.get(c.Fn, unhexes(c.Args)...)
+		}
+		msg := r.runHistory(&h, clean, true)
+		fmt.Println("replay", h.sig())
+		if msg != "" {
+			fmt.Println("ORACLE-FAIL:", msg)
+			r.c.Fail("replay", msg, h)
+		} else {
+			fmt.Println("oracles hold")
+		}
+	case "concurrent-history":
+		fmt.Println("concurrent histories are not replayable one by one; run the check")
 	case "find":
 		var sc findScenario
 		if err := r.c.LoadReplay(&sc); err != nil {
